@@ -163,6 +163,8 @@ type c06Point struct {
 	// mode ignores (mode 1: a device that always drives the bus; the dispatch is still 0038h);
 	// 2 mode 2 with an odd vector byte (dispatch target outside the statement; everything else holds)
 	Shape int
+	// R0: initial refresh register + 1 (0: the base vector's)
+	R0 int
 }
 
 type c06Edge struct {
@@ -175,6 +177,7 @@ type c06Edge struct {
 	IM0    string   `json:"im0_data"`
 	Halt   bool     `json:"halt_flag"`
 	Shape  int      `json:"request_shape,omitempty"`
+	R0     int      `json:"r0,omitempty"`
 	Salt   uint32   `json:"salt"`
 	Instrs int      `json:"-"`
 }
@@ -199,6 +202,9 @@ func (r *c06Runner) build(a *absState, p *c06Point, in *c06Instr) *z80.Interrupt
 	s.PC, s.SP, s.I = p.PC, p.SP, p.I
 	s.IFF1, s.IFF2, s.IM = a.IFF1, a.IFF2, a.IM
 	s.Halt = p.HaltFlag
+	if p.R0 > 0 {
+		s.R = uint8(p.R0 - 1)
+	}
 	if in.setup != nil {
 		in.setup(&s)
 	}
@@ -375,7 +381,9 @@ func (r *c06Runner) replayEdge(si int, p *c06Point, in *c06Instr) ([]string, str
 			// the return address of mode 0 is C07's subject: PC (Z80) or PC+len (this project, known finding there)
 			wantPush = append(wantPush, pre.PC+uint16(len(p.IM0)))
 		}
-		exp.R, exp.Halt = got.R, got.Halt // not compared across an acceptance (DESIGN §6)
+		// the 7-bit counter and the halted indication are not compared across an acceptance (DESIGN §6); bit 7 of
+		// R belongs to the program and survives it
+		exp.R, exp.Halt = exp.R&0x80|got.R&0x7F, got.Halt
 		if got != exp {
 			d = append(d, fmt.Sprintf("accepted %s in mode %d: want %v got %v", a.Pend, a.IM, stateMap(&exp), stateMap(&got)))
 		}
@@ -559,6 +567,13 @@ func c06Lattice(quick bool) []c06Point {
 				out = append(out, p)
 			}
 		}
+		for _, r0 := range []int{0x00, 0x7E, 0x7F, 0x80, 0xFE, 0xFF} {
+			for _, dta := range [][]uint8{datas[7], datas[8]} {
+				p = def
+				p.R0, p.IM0 = r0+1, dta
+				out = append(out, p)
+			}
+		}
 		return out
 	}
 	for _, pc := range pcs {
@@ -578,6 +593,13 @@ func c06Lattice(quick bool) []c06Point {
 	p := def
 	p.I, p.Vec, p.SP = 0x7F, 0xFE, 0x8000
 	out = append(out, p)
+	for r0 := 0; r0 < 256; r0++ {
+		for _, dta := range [][]uint8{datas[7], datas[8]} {
+			p = def
+			p.R0, p.IM0 = r0+1, dta
+			out = append(out, p)
+		}
+	}
 	for _, pc := range pcs {
 		for _, i := range is {
 			for _, v := range vecs {
@@ -627,7 +649,7 @@ func checkC06(c *Ctx) {
 					nt++
 				}
 				if d == nil && (n == 1 || (a.Pend != "none" && a.Depth > 0 && si%97 == 11 && pi == 3 && ii == 7)) {
-					c.Sample(map[string]interface{}{"edge": c06Edge{State: *a, Instr: in.label, PC: p.PC, SP: p.SP, I: p.I, Vec: p.Vec, IM0: hexBytes(p.IM0), Halt: p.HaltFlag, Shape: p.Shape, Salt: c.Salt}, "post_state": stateMap(func() *refz80.State { s := fromCPU(&r.w.cpu); return &s }())})
+					c.Sample(map[string]interface{}{"edge": c06Edge{State: *a, Instr: in.label, PC: p.PC, SP: p.SP, I: p.I, Vec: p.Vec, IM0: hexBytes(p.IM0), Halt: p.HaltFlag, Shape: p.Shape, R0: p.R0, Salt: c.Salt}, "post_state": stateMap(func() *refz80.State { s := fromCPU(&r.w.cpu); return &s }())})
 				}
 				if d != nil {
 					key := fmt.Sprintf("c06/edge:%s/IM%d/%s", a.Pend, a.IM, in.name)
@@ -635,7 +657,7 @@ func checkC06(c *Ctx) {
 						continue
 					}
 					failedKeys[key] = true
-					e := c06Edge{State: *a, Instr: in.label, PC: p.PC, SP: p.SP, I: p.I, Vec: p.Vec, IM0: hexBytes(p.IM0), Halt: p.HaltFlag, Shape: p.Shape, Salt: c.Salt}
+					e := c06Edge{State: *a, Instr: in.label, PC: p.PC, SP: p.SP, I: p.I, Vec: p.Vec, IM0: hexBytes(p.IM0), Halt: p.HaltFlag, Shape: p.Shape, R0: p.R0, Salt: c.Salt}
 					c.Report(key, int64(si)*1000000+int64(ii)*10000+int64(pi), sig, e, cloneStrings(append([]string{fmt.Sprintf("model state {%s}, Step(%s), PC=%04X SP=%04X I=%02X vector=%02X mode-0 data=%s", a.key(), in.label, p.PC, p.SP, p.I, p.Vec, hexBytes(p.IM0))}, d...)))
 				}
 			}
@@ -1144,7 +1166,7 @@ func replayC06(c *Ctx, raw []byte) []string {
 		return []string{"state not in graph"}
 	}
 	r := &c06Runner{w: newWorker(obs.NewBackground(e.Salt)), g: g}
-	p := c06Point{PC: e.PC, SP: e.SP, I: e.I, Vec: e.Vec, IM0: parseHexBytes(e.IM0), HaltFlag: e.Halt, Shape: e.Shape}
+	p := c06Point{PC: e.PC, SP: e.SP, I: e.I, Vec: e.Vec, IM0: parseHexBytes(e.IM0), HaltFlag: e.Halt, Shape: e.Shape, R0: e.R0}
 	for _, in := range c06Instrs() {
 		if in.label == e.Instr {
 			in := in
